@@ -74,7 +74,7 @@ def make_jobs(tier, seed):
     return jobs
 
 
-def _lattice_strategy(side, rows, reaction):
+def _lattice_strategy(side, rows, reaction, close_reaction=None):
     from jesse.strategies import Strategy
 
     class Lattice(Strategy):
@@ -105,6 +105,17 @@ def _lattice_strategy(side, rows, reaction):
             else:
                 self.stop_loss = (abs(self.position.qty), reaction)
 
+        def on_close_position(self, order):
+            # a second-level reaction: a fresh resting order placed through the broker from the callback of the CLOSING fill
+            # (the order books of the symbol have just been reset by the strategy layer)
+            if close_reaction is None:
+                return
+            px = self.price
+            if close_reaction < px:
+                self.broker.buy_at(1.0, close_reaction)
+            elif close_reaction > px:
+                self.broker.sell_at(1.0, close_reaction)
+
     return Lattice
 
 
@@ -116,16 +127,21 @@ def _ordinal(vals):
 def _run_A(job):
     viol, cnt, sigs = [], {}, []
     sample = None
-    for side, pc, (o, c, h, l), rows, reaction in job['cases']:
+    for ci, (side, pc, (o, c, h, l), rows, reaction) in enumerate(job['cases']):
         rows = [p for p in rows if p != pc]      # a row at the current price would be a market order, not a resting one
         if not rows:
             continue
+        # every third case with an exit also places an order from on_close_position (level derived from the case)
+        close_reaction = None
+        if reaction is not None and ci % 3 == 0:
+            close_reaction = LEVELS[(ci // 3 + int(o) + int(h)) % len(LEVELS)]
+            cnt['cases_with_close_reaction'] = cnt.get('cases_with_close_reaction', 0) + 1
         t0 = gen.T0
         cs = np.array([[t0, pc, pc, pc, pc, 1.0], [t0 + 60000, o, c, h, l, 1.0]])
         spec = {'config': {'starting_balance': 100000, 'fee': 0.0, 'type': 'futures', 'futures_leverage': 2,
                            'futures_leverage_mode': 'cross'},
                 'routes': [{'symbol': 'BTC-USDT', 'timeframe': '1m',
-                            'strategy': _lattice_strategy(side, rows, reaction)}],
+                            'strategy': _lattice_strategy(side, rows, reaction, close_reaction)}],
                 'data_routes': [], 'candles': {}, 'warmup': 0, 'fast': False}
         out = session.run_session(spec, candles={'BTC-USDT': cs}, snapshots=True)
         v, k = pathmon.check(out['events'], out['candles'], {}, False, aborted=out['error'] is not None)
